@@ -602,7 +602,7 @@ def font_units(ctx, shim, r, ncorpus, nsynth):
         for _ in range(2):
             units.append([f"map font c{i} {f}", f"c{i}", r.choice(SCRIPTS), r.choice(LANGS), None])
     for i in range(nsynth):
-        rec = rand_recipe(r)
+        rec = shared_recipe(r) if i % 3 == 2 else rand_recipe(r)
         units.append([f"map fonthex s{i} {build_font(rec).hex()}", f"s{i}", r.choice(["-", "-", "Latn"]), "-", rec])
     groups = [[u[0], f"map facts {u[1]} {u[2]} {u[3]} " + ",".join(map(str, POOL_TAGS))] for u in units]
     outs = vlib.run_groups(shim, groups)
@@ -870,6 +870,277 @@ def e2e_search(ctx, shim, r):
 
 
 # ------------------------------------------------------------------------------------------------
+# fonts whose features SHARE lookups (salt/ss01, a default-on feature and a user feature, three features on one lookup, …)
+# and the oracle that reads the OpenType meaning off the recipe: one stage, lookups in index order, a lookup acts on a
+# glyph iff ANY feature that references it is on for that glyph.
+
+ON_TAGS = ["ccmp", "liga", "calt", "clig", "locl", "rlig"]        # global with value 1 in the default shaper (horizontal)
+USER_TAGS = ["aalt", "salt", "ss01", "ss02", "ss03", "smcp", "c2sc", "swsh", "ss04", "zero", "onum", "titl"]      # ⊂ POOL_TAGS
+NBASE = 8
+
+
+def shared_recipe(r, share_alt=True):
+    """chars U+E000+i -> glyph 1+i (i < 8); 3-7 single / alternate lookups whose targets are FRESH glyph ids (the output
+    glyph tells which lookups acted, in which order, with which alternate); 1-3 default-on and 2-5 off-by-default features;
+    most lookups are referenced by 2 or 3 features (at least one single-substitution lookup by a user feature and another
+    feature); `share_alt=False` keeps alternate lookups unshared."""
+    on = r.sample(ON_TAGS, r.range(1, 3))
+    user = r.sample(USER_TAGS, r.range(2, 5))
+    tags = on + user
+    nl = r.range(3, 7)
+    kinds = ["s" if r.chance(2, 3) else "t" for _ in range(nl)]
+    kinds[r.below(nl)] = "s"
+    refs = []
+    for li in range(nl):
+        n = [1, 1, 2, 2, 2, 3][r.below(6)]
+        if kinds[li] == "t" and n > 1 and (not share_alt or not r.chance(1, 3)):
+            n = 1                   # a shared ALTERNATE lookup "breaks badly" upstream (alternate_set.rs): kept rare
+        refs.append(r.sample(tags, n))
+    singles = [li for li in range(nl) if kinds[li] == "s"]
+    if not any(len(refs[li]) >= 2 and any(t in user for t in refs[li]) for li in singles):
+        a = r.choice(user)
+        refs[r.choice(singles)] = [a, r.choice([t for t in tags if t != a])]
+    for t in tags:                  # every feature references something
+        if not any(t in x for x in refs):
+            li = r.choice(singles if (not share_alt or r.chance(2, 3)) else list(range(nl)))
+            if kinds[li] == "t" and not share_alt and refs[li]:
+                li = r.choice(singles)
+            refs[li].append(t)
+    nxt = [NBASE + 1]
+    def fresh():
+        nxt[0] += 1
+        return nxt[0] - 1
+    base, derived, lookups = list(range(1, NBASE + 1)), [], []
+    for li in range(nl):
+        dom = r.sample(base, r.range(4, NBASE)) + r.sample(derived, r.range(0, min(len(derived), 6)))
+        if kinds[li] == "s":
+            m = {g: fresh() for g in sorted(dom)}
+            derived += list(m.values())
+        else:
+            m = {g: [fresh() for _ in range(r.choice([1, 2, 3, 3, 4]))] for g in sorted(dom)}
+            derived += [a for al in m.values() for a in al]
+        lookups.append((kinds[li], m))
+    features = []
+    for t in sorted(tags, key=T):
+        ls = [li for li in range(nl) if t in refs[li]]
+        if r.chance(1, 10):
+            ls = ls + [ls[0]]       # the same lookup twice in one feature
+        features.append((T(t), ls))
+    return {"nglyphs": nxt[0] + 1, "cmap": {0xE000 + i: 1 + i for i in range(NBASE)},
+            "scripts": {T("DFLT"): {"req": None, "feats": list(range(len(features)))}},
+            "features": features, "lookups": lookups, "on": on, "user": user}
+
+
+def shared_lookups(rec):
+    """[(lookup index, kind, [referencing tags])] for lookups referenced by two or more features"""
+    out = []
+    for li, (kind, _) in enumerate(rec["lookups"]):
+        ts = [tag_str(t) for t, ls in rec["features"] if li in ls]
+        if len(ts) >= 2:
+            out.append((li, kind, ts))
+    return out
+
+
+def spec_shape_shared(rec, text, feats, semantics):
+    """[(gid | None, cluster)] and the intended gid of every None position.
+    Per cluster the value of every feature of the font: default (1 for the default-on tags, 0 otherwise) overridden by the
+    user entries that cover the cluster ('seq' / 'hb' order as in spec_shape).  Then the lookups in index order: a lookup
+    acts iff some referencing feature has a non-zero value there; a single substitution replaces a covered glyph, an
+    alternate substitution takes alternate #value of the referencing feature that is on.
+    An alternate lookup referenced by two or more REQUESTED features that do not all sit on the shared global bit is the
+    upstream-documented "breaks badly if two features enabled this lookup together": the glyph is not judged from there
+    on (None) and its intended glyph is returned separately (the value of the on-features when they agree)."""
+    ftags = {tag_str(t): ls for t, ls in rec["features"]}
+    defaults = {t: (1 if t in rec["on"] else 0) for t in ftags}
+    mentioned = {t for t, _, _, _ in feats}
+    requested = set(rec["on"]) | {t for t, v, _, _ in feats if v > 0 and t in ftags}
+    order = feats if semantics == "seq" else ([f for f in feats if (f[2], f[3]) == (0, U32)] +
+                                               [f for f in feats if (f[2], f[3]) != (0, U32)])
+    out, intent = [], []
+    for g, c in text:
+        vals = dict(defaults)
+        for t, v, s, e in order:
+            if t in vals and covers(s, e, c):
+                vals[t] = v
+        judged, want = True, g
+        for li, (kind, m) in enumerate(rec["lookups"]):
+            refs = [t for t in ftags if li in ftags[t]]
+            onv = [vals[t] for t in refs if vals[t] != 0]
+            if not onv:
+                continue
+            if kind == "s":
+                want = m.get(want, want)
+                continue
+            alts = m.get(want)
+            if alts is None:
+                continue
+            rq = [t for t in refs if t in requested]
+            if len(rq) >= 2 and not all(t in rec["on"] and t not in mentioned for t in rq):
+                judged = False
+                if len(set(onv)) != 1:
+                    want = None         # the on-features disagree: no intent either
+                    break
+            if 1 <= onv[0] <= len(alts):
+                want = alts[onv[0] - 1]
+        out.append((want if judged else None, c))
+        intent.append(want)
+    return out, intent
+
+
+def fmt_out_q(gl):
+    return f"ok {len(gl)}" + "".join(f" {'?' if g is None else g}:{c}" for g, c in gl)
+
+
+def matches_q(observed, expected):
+    """expected may hold `?` for glyph ids that are not judged"""
+    if expected is None:
+        return False
+    a, b = observed.split(), expected.split()
+    return len(a) == len(b) and all(x == y or (y.startswith("?:") and x.split(":")[1:] == y.split(":")[1:]) for x, y in zip(a, b))
+
+
+RANGES6 = [(0, U32), (1, 3), (2, 5), (0, 1), (3, 3), (0, U32 - 1)]
+
+
+def shared_feature_lists(r, rec, nrandom):
+    """structured: every pair of features that share a lookup × all pairs of 6 ranges × values (1,1) (2,1) (0,1) (3,2);
+    random: 1-5 entries over the font's tags (sometimes an absent tag), values 0-3 (one entry may carry 255)."""
+    ftags = [tag_str(t) for t, _ in rec["features"]]
+    out = []
+    pairs = []
+    for li, kind, ts in shared_lookups(rec):
+        pairs += [(a, b) for i, a in enumerate(ts) for b in ts[i + 1:]]
+    for a, b in r.shuffle(pairs)[:3]:
+        for va, vb in ((1, 1), (2, 1), (0, 1), (3, 2)):
+            for ra in RANGES6:
+                for rb in RANGES6:
+                    out.append([(a, va, *ra), (b, vb, *rb)])
+    for _ in range(nrandom):
+        f, wide = [], False
+        for _ in range(r.range(1, 5)):
+            s, e = r.choice(RANGES6 + [(r.below(6), r.below(7))])
+            t = r.choice(ftags) if r.chance(9, 10) else "zzzz"
+            if f and r.chance(1, 6): t = r.choice(f)[0]
+            v = r.choice([0, 1, 1, 1, 2, 3])
+            if not wide and r.chance(1, 12):
+                v, wide = 255, True
+            f.append((t, v, s, e))
+        out.append(f)
+    return out
+
+
+def shared_search(ctx, shim, r):
+    nfonts, nrandom = ctx.budget(30, 250), ctx.budget(150, 600)
+    texts = [[(1 + i, i) for i in range(5)], [(1 + i, i) for i in range(NBASE)], [(1, 0), (2, 0), (3, 1), (4, 1), (5, 2), (6, 2)],
+             [(8, 1), (7, 2), (6, 3), (5, 4), (4, 5)], [(3, 0), (3, 2), (1, 4)], [(2, 0)]]
+    recs, regs, meta = [], [], []
+    nshared = nshared_alt = 0
+    tags = DEFAULT_TAGS + [T(t) for t in USER_TAGS] + [T("zzzz")]
+    for i in range(nfonts):
+        rec = shared_recipe(r)
+        sl = shared_lookups(rec)
+        nshared += len(sl); nshared_alt += len([1 for _, k, _ in sl if k == "t"])
+        recs.append(rec); regs.append(f"map fonthex H{i} {build_font(rec).hex()}")
+        m = []
+        for k, f in enumerate(shared_feature_lists(r, rec, nrandom)):
+            m.append((rec, f, texts[0] if len(f) == 2 and k % 4 else r.choice(texts)))
+        meta.append(m)
+    # the reply of `map facts` is pasted into the shape requests (the model reads the font from it): two passes
+    facts = vlib.run_groups(shim, [[reg, f"map facts H{i} - - " + ",".join(map(str, tags))] for i, reg in enumerate(regs)])
+    lines = []
+    for i, (rec, reg, m) in enumerate(zip(recs, regs, meta)):
+        lk = " ".join(lookup_tokens(rec))
+        lines.append([reg] + [shape_request(f"H{i}", facts[i][1], lk, f, text) for _, f, text in m])
+    outs = vlib.run_groups(shim, lines)
+    stats = {"ok": 0, "value-wraps-mod-256": 0, "ranged-then-global-same-tag": 0, "ranged-then-global-truncates": 0,
+             "shared-alternate-lookup": 0, "other": 0, "unjudged-glyphs": 0, "two-requested-features-on-one-lookup": 0}
+    reported = {}
+    total = nontriv = 0
+    alt_example = None
+    for m, ls, o in zip(meta, lines, outs):
+        for (rec, f, text), req, got in zip(m, ls[1:], o[1:]):
+            total += 1
+            (a, ia), (b, ib) = spec_shape_shared(rec, text, f, "seq"), spec_shape_shared(rec, text, f, "hb")
+            ea, eb = fmt_out_q(a), fmt_out_q(b)
+            if any(covers(s, e, c) for (_, _, s, e) in f for (_, c) in text): nontriv += 1
+            stats["unjudged-glyphs"] += len([1 for g, _ in a if g is None])
+            rq = set(rec["on"]) | {t for t, v, _, _ in f if v > 0}
+            if any(len([t for t in ts if t in rq]) >= 2 for _, _, ts in shared_lookups(rec)):
+                stats["two-requested-features-on-one-lookup"] += 1
+            if matches_q(got, ea) or matches_q(got, eb):
+                stats["ok"] += 1
+                # the judged glyphs are right; is an unjudged one off its intent?
+                gg = [int(x.split(":")[0]) for x in got.split()[2:]] if got.startswith("ok") else []
+                off = [(j, gg[j], ia[j]) for j in range(len(gg)) if a[j][0] is None and ia[j] is not None and gg[j] != ia[j]]
+                if off and matches_q(got, ea):
+                    stats["shared-alternate-lookup"] += 1
+                    if alt_example is None:
+                        alt_example = {"features": [list(x) for x in f], "text": [list(x) for x in text], "lines": [ls[0], req],
+                                       "observed": got, "intended": fmt_out(list(zip(ia, [c for _, c in text]))),
+                                       "font_features": [(tag_str(t), l) for t, l in rec["features"]],
+                                       "shared": shared_lookups(rec)}
+                continue
+            if any(v >= 256 for (_, v, _, _) in f):
+                stats["value-wraps-mod-256"] += 1
+                continue
+            dup = [(j, k) for j in range(len(f)) for k in range(j + 1, len(f))
+                   if f[j][0] == f[k][0] and (f[j][2], f[j][3]) != (0, U32) and (f[k][2], f[k][3]) == (0, U32)]
+            if any(f[k][1] == 1 for _, k in dup): cls = "ranged-then-global-same-tag"
+            elif dup: cls = "ranged-then-global-truncates"
+            else: cls = "other"
+            stats[cls] += 1
+            if cls not in reported or (cls == "other" and reported[cls] < 3):
+                reported[cls] = reported.get(cls, 0) + 1
+                sh = shared_lookups(rec)
+                what = {"ranged-then-global-same-tag": "a ranged entry followed by a global entry (value 1) of the same tag is applied "
+                        "to the shared GLOBAL bit", "ranged-then-global-truncates": "a global entry after a ranged entry of the same "
+                        "tag overwrites max_value (dedup_feature_infos)",
+                        "other": "user features did not act on exactly their cluster ranges with their values on a font whose "
+                        "features share lookups"}[cls]
+                ctx.violation(f"{what}: features {f} on clusters {[c for _, c in text]} → {got}; expected {ea} "
+                              f"(font: features → lookups {[(tag_str(t), l) for t, l in rec['features']]}, default-on {rec['on']})",
+                              {"stage": "search", "stream": "feature-shape", "generator": "shared-lookups", "class": cls, "api": "shape",
+                               "features": [list(x) for x in f], "text": [list(x) for x in text], "lines": [ls[0], req],
+                               "font_features": [(tag_str(t), l) for t, l in rec["features"]], "default_on": rec["on"],
+                               "lookups": lookup_tokens(rec), "shared_lookups": sh,
+                               "expected": ea, "expected_alt": eb, "observed": got})
+    # permanent witness of known_C14_shared_alternate_index: salt and ss01 on ONE alternate lookup {glyph 1 -> 10..14}
+    wrec = {"nglyphs": 20, "cmap": {0xE000 + i: 1 + i for i in range(NBASE)}, "scripts": {T("DFLT"): {"req": None, "feats": [0, 1]}},
+            "features": [(T("salt"), [0]), (T("ss01"), [0])], "lookups": [("t", {1: [10, 11, 12, 13, 14]})], "on": [], "user": ["salt", "ss01"]}
+    wreg = f"map fonthex W {build_font(wrec).hex()}"
+    wfacts = vlib.run_groups(shim, [[wreg, f"map facts W - - {T('salt')},{T('ss01')}"]], nproc=1)[0][1]
+    wreq = shape_request("W", wfacts, " ".join(lookup_tokens(wrec)), [("salt", 1, 0, 1), ("ss01", 1, 2, 3)], [(1, 0), (1, 1), (1, 2)])
+    wgot = vlib.run_groups(shim, [[wreg, wreq]], nproc=1)[0][1]
+    ctx.cov["known_witness_shared_alternate"] = {
+        "theorem": "known_C14_shared_alternate_index", "lines": [wreg, wreq], "features": "salt[0:1]=1 ss01[2:3]=1",
+        "crate": wgot, "intended": "ok 3 10:0 1:1 10:2", "theorem_says": "ok 3 10:0 1:1 11:2 (index 1·2^(5-4) = 2 at cluster 2)",
+        "reproduces_on_crate": wgot == "ok 3 10:0 1:1 11:2"}
+    if alt_example is not None:
+        rp = dict(alt_example)
+        rp.update({"stage": "search", "stream": "feature-shape", "generator": "shared-lookups", "class": "shared-alternate-lookup",
+                   "api": "shape", "count": stats["shared-alternate-lookup"]})
+        what = ("an ALTERNATE lookup referenced by two requested features takes its alternate index from the union of both "
+                "features' mask bits (alternate_set.rs: 'This breaks badly if two features enabled this lookup together'): "
+                f"features {rp['features']} → {rp['observed']}, intended {rp['intended']}")
+        registered = any(k.get("status") == "known" and k.get("property") == ctx.prop and vlib.matches_known(k, rp) for k in ctx.kf)
+        if registered:
+            ctx.violation(what, rp)
+        else:
+            # inherited from HarfBuzz and not (yet) in known_findings.json: shown and recorded, not failed
+            ctx.cov.setdefault("unregistered_findings", []).append({"class": "shared-alternate-lookup", "what": what, "replay": rp})
+            print(f"# UNREGISTERED-FINDING property={ctx.prop} class=shared-alternate-lookup count={rp['count']}: {what[:400]}")
+    ctx.note_search("feature-shape-shared", total, nontriv, fonts=nfonts, shared_lookups=nshared, shared_alternate_lookups=nshared_alt,
+                    classes=stats,
+                    rule="generated GSUB fonts (8 base glyphs, 3-7 single / alternate lookups with fresh target glyphs, 1-3 default-on "
+                         "and 2-5 optional features, most lookups referenced by 2-3 features) through the public shape(); per font all "
+                         "pairs of 6 ranges × 4 value pairs for up to 3 feature pairs that share a lookup, plus random lists of 1-5 "
+                         "entries (values 0-3, 255). Oracle: per-cluster feature values by sequential override (or globals-then-ranges), "
+                         "lookups in index order, a lookup acts iff ANY referencing feature is on, alternate #value; glyphs that went "
+                         "through an alternate lookup shared by two requested features are not judged (counted: unjudged-glyphs, "
+                         "shared-alternate-lookup); non-trivial = some entry covers some cluster of the text")
+
+
+# ------------------------------------------------------------------------------------------------
 
 META_TAGS = ["init", "medi", "fina", "isol", "med2", "fin2", "fin3", "rlig", "liga", "calt", "ccmp", "kern", "mark", "mkmk", "locl",
              "rclt", "clig", "akhn", "half", "pres", "abvs", "blws", "psts", "haln", "ljmo", "vjmo", "tjmo", "curs", "dist", "cjct",
@@ -969,6 +1240,88 @@ def metamorphic_search(ctx, shim, r, ncases):
                          "absent tags; a ranged feature alone vs the same behind 4-39 absent tags with wide values; non-trivial = the global feature changes the shaping result")
 
 
+def metamorphic_synth(ctx, shim, r, nfonts, per):
+    """the same consequences on generated fonts whose features share lookups (alternate lookups unshared), default shaper:
+    the feature under test and the features of the base list reference common lookups, so the mask of a shared lookup is
+    the union of masks that differ between the two sides of each relation (own bits vs the global bit vs no bits)."""
+    tags = DEFAULT_TAGS + [T(t) for t in USER_TAGS] + [T("zzzz")] + [T("zz%02d" % j) for j in range(50)] + \
+           [T(x % j) for x in ("0a%02d", "A%03d", "zy%02d") for j in range(24)]
+    recs = [shared_recipe(r, share_alt=False) for _ in range(nfonts)]
+    regs = [f"map fonthex M{i} {build_font(rec).hex()}" for i, rec in enumerate(recs)]
+    facts = vlib.run_groups(shim, [[reg, f"map facts M{i} - - " + ",".join(map(str, tags))] for i, reg in enumerate(regs)])
+    U = U32
+    groups, meta = [], []
+    for i, (rec, reg) in enumerate(zip(recs, regs)):
+        ftags = [tag_str(t) for t, _ in rec["features"]]
+        lk = " ".join(lookup_tokens(rec))
+        lines, trip = [reg], []
+        for _ in range(per):
+            n = r.range(1, 6)
+            text = [(1 + r.below(NBASE), c) for c in range(n)]
+            base = []               # distinct tags: the same tag ranged and then global is the known finding F2 / F3
+            for t in r.sample(ftags, min(r.range(0, 3), len(ftags) - 1)):
+                s_, e_ = r.choice([(0, U), (0, n), (r.below(n + 1), n), (r.below(n + 1), r.below(n + 2))])
+                base.append((t, r.choice([0, 1, 1, 2, 3]), s_, e_))
+            free = [t for t in ftags if t not in {b[0] for b in base}]
+            # prefer a tag that shares a lookup with a tag of the base list (or with a default-on tag)
+            busy = {b[0] for b in base} | set(rec["on"])
+            near = [t for t in free if any(t in ts and any(x in busy and x != t for x in ts) for _, _, ts in shared_lookups(rec))]
+            tag = r.choice(near) if near and r.chance(3, 4) else r.choice(free)
+            v = r.choice([0, 1, 1, 2, 3])
+            k, k2 = r.below(n + 1), r.below(n + 1)
+            absent = [("zz%02d" % r.below(50), r.choice([1, 3, 100, 200, 255]), *r.choice([(0, U), (0, n), (k, n)]))
+                      for _ in range(r.range(1, 3))]
+            many = [(r.choice(["0a%02d", "A%03d", "zy%02d"]) % j, r.choice([255, 200, 127, 3]), *r.choice([(0, n), (k, n), (0, U)]))
+                    for j in range(r.range(4, 24))]
+            variants = {
+                "ranged": base + [(tag, v, k2, n)],
+                "absent-many+ranged": base + many + [(tag, v, k2, n)],
+                "global": base + [(tag, v, 0, U)],
+                "full-range": base + [(tag, v, 0, n)],
+                "over-range": base + [(tag, v, 0, n + r.range(1, 9))],
+                "none": base,
+                "empty-range": base + [(tag, v, k, k)],
+                "beyond-range": base + [(tag, v, n, n + 3)],
+                "absent-tags": base + absent,
+            }
+            idx = {}
+            for name, f in variants.items():
+                idx[name] = len(lines)
+                lines.append(shape_request(f"M{i}", facts[i][1], lk, f, text))
+            trip.append((rec, tag, v, idx, variants, text))
+        groups.append(lines); meta.append(trip)
+    outs = vlib.run_groups(shim, groups, timeout=900)
+    total = nontriv = bad = 0
+    for trip, g, o in zip(meta, groups, outs):
+        for rec, tag, v, idx, variants, text in trip:
+            total += 1
+            get = lambda name: o[idx[name]]
+            if get("global") != get("none"):
+                nontriv += 1
+            pairs = [("global", "full-range", "full-range-equals-global"), ("global", "over-range", "full-range-equals-global"),
+                     ("none", "empty-range", "empty-range-equals-none"), ("none", "beyond-range", "empty-range-equals-none"),
+                     ("none", "absent-tags", "absent-tags-equal-none"), ("ranged", "absent-many+ranged", "absent-tags-equal-none")]
+            for a, b, cls in pairs:
+                if get(a) != get(b):
+                    bad += 1
+                    if bad <= 3:
+                        ctx.violation(f"user feature range semantics on a font whose features share lookups: {b} differs from {a} "
+                                      f"for feature {tag}={v}: {variants[b]} → {get(b)} but {variants[a]} → {get(a)} "
+                                      f"(font: features → lookups {[(tag_str(t), l) for t, l in rec['features']]}, default-on {rec['on']})",
+                                      {"stage": "search", "stream": "feature-metamorphic", "class": cls + ":synthetic:shared-lookup-font",
+                                       "generator": "shared-lookups", "lines": [g[0], g[idx[a]], g[idx[b]]],
+                                       "features_a": variants[a], "features_b": variants[b], "text": [list(x) for x in text],
+                                       "font_features": [(tag_str(t), l) for t, l in rec["features"]], "default_on": rec["on"],
+                                       "shared_lookups": shared_lookups(rec), "result_a": get(a), "result_b": get(b)})
+                    break
+    ctx.note_search("feature-metamorphic-shared", total * 9, nontriv, relation_cases=total, deviations=bad, fonts=nfonts,
+                    rule="the metamorphic relations (global vs full range vs over-long range; none vs empty range vs range beyond the "
+                         "text vs absent tags; ranged alone vs behind 4-23 absent tags) on generated fonts whose single-substitution "
+                         "lookups are referenced by 2-3 features, with a base list of 0-3 further user features (values 0-3, any "
+                         "range) and a feature under test that shares a lookup with a base / default-on feature in 3 of 4 cases; "
+                         "non-trivial = the global feature changes the result")
+
+
 def run(ctx):
     ctx.assumptions += [
         "the theorems are about the Lean models of Feature::new / from_str / is_global (common.rs, text_parser.rs), of the "
@@ -1008,7 +1361,9 @@ def run(ctx):
     ctx.correspond("feature-shape", groups=shape_groups(r, units, ctx.budget(150, 800)), classify=classify_shape)
 
     e2e_search(ctx, shim, ctx.rng("e2e"))
+    shared_search(ctx, shim, ctx.rng("shared"))
     metamorphic_search(ctx, shim, ctx.rng("meta"), ctx.budget(600, 2128))
+    metamorphic_synth(ctx, shim, ctx.rng("meta-shared"), ctx.budget(30, 200), ctx.budget(40, 150))
 
 
 def replay(ctx, rp):
@@ -1021,4 +1376,11 @@ def replay(ctx, rp):
         print("expected:", rp["expected"])
     if rp.get("stream") == "feature-new":
         return 1 if o == rp.get("observed") else 0      # still the recorded (wrong) answer?
-    return 0 if o in (rp.get("expected"), rp.get("expected_alt")) else 1
+    if rp.get("stream") == "feature-metamorphic":
+        outs = vlib.run_groups(shim, [lines], nproc=1)[0]
+        print("a       :", outs[-2]); print("b       :", outs[-1])
+        return 1 if outs[-2] != outs[-1] else 0         # the two sides of the relation still differ?
+    if rp.get("class") == "shared-alternate-lookup":
+        print("intended:", rp.get("intended"))
+        return 1 if o != rp.get("intended") else 0
+    return 0 if (matches_q(o, rp.get("expected")) or matches_q(o, rp.get("expected_alt"))) else 1
